@@ -3,7 +3,7 @@
    no inline objects, allOf/oneOf, no remote refs), as executable definitions (no proofs here).
 
    Transliterated decisions of pkg/importer:
-     openapi3_legacy.go  convertSpec        range over the definitions (map order = the order of the list `doc`),
+     openapi3_legacy.go  convertSpec        the definitions in the order of their names (utils.OrderedKeys, since 3a34129),
                                             getSyslSafeName, skip what TypeList.Find already resolves (builtin
                                             names first!), loadTypeSchema, types.Sort
                          loadTypeSchema     array / object / default arms; `f.Optional = !Contains(fname, Required)`;
@@ -31,7 +31,7 @@ Inductive obody :=
 | OEnum
 | OPrim (ty fmt:string).
 Definition odef := (bs * obody)%type.
-Definition oasdoc := list odef.   (* in the order in which Go happens to range over the definitions map *)
+Definition oasdoc := list odef.   (* the definitions map, listed in any order *)
 
 (* ---------------- what the compiled module says ---------------- *)
 Record field := mkf { f_kind : string; f_bits : N; f_ref : bs; f_opt : bool; f_seq : bool }.
@@ -137,7 +137,11 @@ Section Import.
   (* convertSpec: the loop over the definitions, then types.Sort *)
   Definition convert_step (types:list itype) (d:odef) : list itype :=
     let s := safe (fst d) in if find types s then types else types ++ [load types s (snd d)].
-  Definition convert (doc:oasdoc) : list itype := sort_by itype_name (fold_left convert_step doc []).
+  (* since 3a34129 the definitions are visited in the order of their (foreign) names: utils.OrderedKeys =
+     sort.Strings of the map's keys, which are distinct. `doc` may list them in any order. *)
+  Definition visit_order (doc:oasdoc) : oasdoc := sort_by (fun d:odef => fst d) doc.
+  Definition loaded_list (doc:oasdoc) : list itype := fold_left convert_step (visit_order doc) [].
+  Definition convert (doc:oasdoc) : list itype := sort_by itype_name (loaded_list doc).
 
   (* writeDefinitions: types and enums first, the other aliases afterwards *)
   Definition first_pass (t:itype) : bool := match t with IStandard _ _ | IEnum _ => true | _ => false end.
